@@ -22,11 +22,14 @@ def design(ctx, thorough):
     cfg = "mc/OklKernel_design.cfg" if thorough else "mc/OklKernel_design_quick.cfg"
     r = ctx.tlc("mc/MC_OklKernel.tla", cfg, workers=4, coverage=True, deadlock=False, timeout=3000)
     ctx.tlc_must_pass(r, "OklKernel design (%s)" % cfg)
-    ctx.require_coverage(r, ["BeginNest", "AddStmt", "NextPhase", "Finish", "Launch", "StepStmt", "StepPhase", "NextLaunch"])
+    ctx.cov["design_actions_taken"] = kc.require_cov(r, [("DoBegin", "BeginNest"), ("DoAdd", "AddStmt"), ("DoNextPhase", "NextPhase"), ("Finish",),
+                                                          ("DoLaunch", "Launch"), ("DoStmt", "StepStmt"), ("DoPhase", "StepPhase"), ("NextLaunch",)])
     ctx.cov["design_states"] = r.distinct
     caught = 0
     for cfg, what in (MUTANT_CFGS if thorough else MUTANT_CFGS[1:3]):
-        m = ctx.tlc("mc/MC_OklKernel.tla", cfg, workers=4, deadlock=False, timeout=1500, count=False, expect_violation=True)
+        # random interleavings find the counterexample much faster than breadth-first search
+        m = ctx.tlc("mc/MC_OklKernel.tla", cfg, workers=2, simulate=6000, depth=120, deadlock=False, timeout=1500, count=False,
+                    expect_violation=True)
         if m.violated not in ("LaunchIsSeq", "NoBadAccess"):
             raise Broken("model mutant `%s` (%s) is not rejected by the design check: rc=%s violated=%s\n%s"
                          % (what, cfg, m.rc, m.violated, m.out[-1500:]))
@@ -165,13 +168,32 @@ def run(ctx):
         stats["asan_runs"] = astats["runs"]
         stats["mismatch"] += astats["mismatch"]
         stats["crash"] += astats["crash"]
-    # 7. evidence
+    # 7. race pass: the @atomic kernels again with the work-items of a group as concurrent threads and
+    #    ThreadSanitizer on the translated device source (an update that is not atomic is a data race)
+    if not os.environ.get("C20_DEV_SKIP_RACE"):
+        reports, nruns, fails = kc.race_pass(ctx, gen, kc_argvecs, LAUNCHER_MODES if thorough else ["cuda", "opencl", "metal", "dpcpp"],
+                                             limit=(160 if thorough else 30), fanout=fan)
+        kc.lap(ctx, t0, "race pass")
+        for m, err in fails:
+            raise Broken("race pass could not run on %s: %s" % (m, (err or "")[-2000:]))
+        stats["race_runs"] = nruns
+        stats["race_reports"] = len(reports)
+        for rp in reports:
+            g = rp["g"]
+            what = "acc-update" if "acc[" in rp["line"] else "other"
+            ctx.mismatch("data-race:%s:%s" % (rp["mode"], what),
+                         "ThreadSanitizer: work-items of one group race in the translated %s kernel at `%s` (work-items run concurrently):\n%s\n%s"
+                         % (rp["mode"], rp["line"], rp["report"][:1500], g["okl"] if g else ""),
+                         [{"mode": rp["mode"], "kernel": g["k"] if g else None, "okl": g["okl"] if g else None, "line": rp["line"],
+                           "report": rp["report"], "device": rp.get("device")}])
+    # 8. evidence
     feats = collections.Counter()
     for g in gen:
         for f in kc.features(g["k"]):
             feats[f] += 1
     bycls = collections.Counter(g["cls"] for g in gen)
-    ctx.cov.update({"programs": len(gen), "disagreements_checked": stats["runs"] + stats["asan_runs"],
+    ctx.cov.update({"programs": len(gen), "disagreements_checked": stats["runs"] + stats["asan_runs"] + stats["race_runs"],
+                    "race_pass_runs": stats["race_runs"], "race_reports": stats["race_reports"],
                     "backends": len(MODES), "argument_vectors": len(kc_argvecs),
                     "backend_runs_plain": stats["runs"], "backend_runs_asan": stats["asan_runs"],
                     "conforming_plain": stats["conform"], "mismatching_runs": stats["mismatch"], "crashed_batches": stats["crash"],
